@@ -218,6 +218,19 @@ def boundary_scenarios(work, rng, tier):
     for k in range(20):
         s.set_xattr("g00", "user.many%02d" % k, b"v%d" % k)
     out.append((s, ["-b", "4096"]))
+    # a fragment block that is flushed in the MIDDLE of the data area, directly followed by a file whose blocks repeat earlier ones
+    # (the block writer truncates the output back to the end of what precedes the duplicate: the fragment block has to survive)
+    s = gen.Scenario(work, "b_frag_then_dup")
+    A = gen.content(rng, "random", bs)
+    B = gen.content(rng, "random", 2 * bs)
+    s.add_file("/f1_orig", A + gen.content(rng, "random", 3000))
+    s.add_file("/f2_tail", gen.content(rng, "random", 3000))            # overflows the fragment block: it is flushed here
+    s.add_file("/f3_dup", A)                                             # one full block, duplicate of f1's
+    s.add_file("/f4_orig2", B + gen.content(rng, "random", 2500))
+    s.add_file("/f5_tail", gen.content(rng, "random", 2500))
+    s.add_file("/f6_dup2", B)
+    s.add_file("/f7_tail", gen.content(rng, "random", 100))
+    out.append((s, ["-b", str(bs)]))
     # many ids
     nid = 300 if tier == "quick" else 3000
     s = gen.Scenario(work, "b_ids")
